@@ -4,11 +4,13 @@
 # /repo must be clean; nothing else may be using /repo while this runs.
 set -u
 cd /verif
+# evidence and replay files of these runs go to a scratch directory, not to /verif/evidence
+export VERIF_OUT=/tmp/seedsweep-out; rm -rf $VERIF_OUT; mkdir -p $VERIF_OUT; cp known_findings.json $VERIF_OUT/
 [ -z "$(git -C /repo status --porcelain)" ] || { echo "/repo is not clean"; exit 2; }
 names=("$@"); [ ${#names[@]} -eq 0 ] && names=($(ls seeded))
 for n in "${names[@]}"; do
   d=seeded/$n
-  git -C /repo apply "$d/patch.diff" || { echo "$n: PATCH DOES NOT APPLY"; continue; }
+  git -C /repo apply "/verif/$d/patch.diff" || { echo "$n: PATCH DOES NOT APPLY"; continue; }
   checks=$(python3 -c "import json,re;print(' '.join(sorted(set(re.findall(r'C\d\d', ' '.join(json.load(open('$d/meta.json'))['detected_by']))))))")
   res=""
   for c in $checks; do
@@ -27,3 +29,4 @@ PY
 done
 # leave the engine built against the clean tree
 ./check C11 quick >/dev/null 2>&1
+rm -rf $VERIF_OUT
